@@ -37,27 +37,28 @@ type c28DefectT struct {
 }
 
 var c28Defects = []c28DefectT{
-	{"size-nonhex", "size"},             // "ZZ\r\n"
-	{"size-empty", "size"},              // "\r\n"
-	{"size-plus", "size"},               // "+5\r\n"
-	{"size-0x", "size"},                 // "0x5\r\n"
-	{"size-lws", "size"},                // " 5\r\n"
-	{"size-overflow-17-digits", "size"}, // 2^64 + n: a wrapping parser reads n
-	{"size-bare-lf", "size"},            // "5\n"
-	{"size-cr-no-lf", "size"},           // "5\r" data ...
-	{"data-xx", "dataend"},              // data "XX" instead of CRLF
-	{"data-crx", "dataend"},             // data "\rX"
-	{"data-xlf", "dataend"},             // data "X\n"
-	{"data-lf-only", "dataend"},         // data "\n" (one octet)
-	{"data-cr-only", "dataend"},         // data "\r" (one octet)
-	{"data-nothing", "dataend"},         // data directly followed by the next chunk-size line
-	{"data-lfcr", "dataend"},            // data "\n\r"
-	{"last-bare-lf", "last"},            // "0\n\r\n"
-	{"last-junk", "last"},               // "0Z\r\n\r\n"
-	{"last-crcrlf", "last"},             // "0\r\r\n\r\n"
-	{"last-no-final-crlf", "last"},      // "0\r\n" directly followed by the next request line (no CRLF ending the trailer-part)
-	{"trailer-no-colon", "trailer"},     // "0\r\nNoFieldHere\r\n\r\n"
-	{"trunc-mid-size", "trunc"},         // "1" of "1f\r\n", then FIN
+	{"size-nonhex", "size"},                       // "ZZ\r\n"
+	{"size-empty", "size"},                        // "\r\n"
+	{"size-plus", "size"},                         // "+5\r\n"
+	{"size-0x", "size"},                           // "0x5\r\n"
+	{"size-lws", "size"},                          // " 5\r\n"
+	{"size-overflow-17-digits", "size"},           // 2^64 + n: a wrapping parser reads n
+	{"size-bare-lf", "size"},                      // "5\n"
+	{"size-cr-no-lf", "size"},                     // "5\r" data ...
+	{"data-xx", "dataend"},                        // data "XX" instead of CRLF
+	{"data-crx", "dataend"},                       // data "\rX"
+	{"data-xlf", "dataend"},                       // data "X\n"
+	{"data-lf-only", "dataend"},                   // data "\n" (one octet)
+	{"data-cr-only", "dataend"},                   // data "\r" (one octet)
+	{"data-nothing", "dataend"},                   // data directly followed by the next chunk-size line
+	{"data-lfcr", "dataend"},                      // data "\n\r"
+	{"last-bare-lf", "last"},                      // "0\n\r\n"
+	{"last-junk", "last"},                         // "0Z\r\n\r\n"
+	{"last-crcrlf", "last"},                       // "0\r\r\n\r\n"
+	{"last-no-final-crlf", "last"},                // "0\r\n" directly followed by the next request line (no CRLF ending the trailer-part)
+	{"trailer-no-colon", "trailer"},               // "0\r\nNoFieldHere\r\n\r\n"
+	{"trailer-no-colon-no-blank-line", "trailer"}, // "0\r\nNoFieldHere\r\n" directly followed by the next request line
+	{"trunc-mid-size", "trunc"},                   // "1" of "1f\r\n", then FIN
 	{"trunc-after-size-cr", "trunc"},
 	{"trunc-mid-data", "trunc"},
 	{"trunc-after-data", "trunc"},
@@ -88,7 +89,7 @@ func c28DefectCells() []c28DefectCell {
 		if strings.HasPrefix(d.Class, "trunc") {
 			tails = []string{"fin"}
 		}
-		if d.Name == "last-no-final-crlf" {
+		if d.Name == "last-no-final-crlf" || d.Name == "trailer-no-colon-no-blank-line" {
 			tails = []string{"decoy"} // the defect IS that the next request line follows at once
 		}
 		for _, p := range poss {
@@ -208,6 +209,8 @@ func c28DefectBody(id, defect, pos string, n int) (body []byte, fin bool) {
 		out.WriteString("0\r\n")
 	case "trailer-no-colon":
 		out.WriteString("0\r\nNoFieldHere\r\n\r\n")
+	case "trailer-no-colon-no-blank-line":
+		out.WriteString("0\r\nNoFieldHere\r\n")
 	case "trunc-before-last-chunk":
 		return out.Bytes(), true
 	case "trunc-in-last-chunk":
